@@ -352,33 +352,51 @@ theorem header_commits_to_roots_v0_refuted {W : World B C} (L : Laws W) (K : Cry
 
 /-! ## one-to-one derivation -/
 
-/-- **oneToOne_symmetric.** From the Diffie–Hellman law `dh a (pub b) = dh b (pub a)`: party `a` with
-`b`'s public key and party `b` with `a`'s public key derive the identical payload — space id, raw
-header, ACL root, settings root — and the identical joint key (from which read and metadata keys are
-derived). No timestamp or seed enters the constructor. -/
+/-- obligation on the regenerated fragment of `util/crypto/x25519.go` / `makeOneToOneInfo`: the HKDF
+context of `GenerateSharedKey` is built from the two Ed25519 IDENTITIES (not from their X25519 images),
+it is sorted, and the writers are sorted -/
+theorem context_from_identities :
+    kdfContextFromIdentities = true ∧ kdfContextSorted = true ∧ writersSorted = true := by decide
+
+/-- **oneToOne_symmetric.** From the Diffie–Hellman law `X25519(a, mont(pub b)) = X25519(b, mont(pub a))`:
+party `a` with `b`'s identity and party `b` with `a`'s identity derive the identical payload — space id,
+raw header, ACL root, settings root — and the identical joint key (from which read and metadata keys
+are derived). No timestamp or seed enters the constructor. -/
 theorem oneToOne_symmetric {W : World B C} (K : Crypto W) (D : DH)
-    (hdh : ∀ a b, D.dh a (D.pub b) = D.dh b (D.pub a)) (a b ty : Nat) :
+    (hdh : ∀ a b, D.dh a (D.mont (D.pub b)) = D.dh b (D.mont (D.pub a))) (a b ty : Nat) :
     oneToOne K D a (D.pub b) ty = oneToOne K D b (D.pub a) ty ∧
     sharedKey D a (D.pub b) = sharedKey D b (D.pub a) := by
-  have hs : sortPair (D.pub a) (D.pub b) = sortPair (D.pub b) (D.pub a) := by
-    simp only [sortPair]; split <;> split <;> simp_all <;> omega
+  have hs : ∀ x y : Nat, sortPair x y = sortPair y x := by
+    intro x y; simp only [sortPair]; split <;> split <;> simp_all <;> omega
   have hk : sharedKey D a (D.pub b) = sharedKey D b (D.pub a) := by
-    simp only [sharedKey, hdh a b, hs]
-  exact ⟨by simp only [oneToOne, oneToOneCore, hk, hs], hk⟩
+    simp only [sharedKey, sharedKeyWith, kdfContext, hdh a b, hs (D.pub a) (D.pub b),
+      hs (D.mont (D.pub a)) (D.mont (D.pub b))]
+  exact ⟨by simp only [oneToOne, oneToOneCore, hk, hs (D.pub a) (D.pub b)], hk⟩
 
-/-- **oneToOne_injective.** Assume (stated injectivity, not provable symbolically): the joint key
-determines the unordered pair of public keys (`X25519`-then-KDF is collision-free on unordered pairs) and
-`pub`, the encoders and the hash are injective (the latter two are part of `Crypto`/`Laws`). Then equal
-space ids — or equal ACL roots — can only come from the same unordered pair (and, for the id, the same
-type): no other key pair derives them. -/
+/-- with the context built from the identities, the joint key determines the unordered pair of
+IDENTITIES, provided the KDF output determines its context (HKDF collision-freedom in `info`) -/
+theorem sharedKey_determines_identities (D : DH)
+    (hkdf : ∀ s c s' c', D.kdf s c = D.kdf s' c' → c = c') (a bId a' bId' : Nat)
+    (h : sharedKey D a bId = sharedKey D a' bId') :
+    sortPair (D.pub a) bId = sortPair (D.pub a') bId' := by
+  have := hkdf _ _ _ _ h
+  simpa [kdfContext, kdfContextFromIdentities] using this
+
+/-- **oneToOne_injective.** Hypotheses (stated, cryptographic): the KDF output determines its context
+argument; `pub`, the encoders and the hash are injective (the latter two are part of `Crypto`/`Laws`).
+Then equal space ids — or equal ACL roots — can only come from the same unordered pair of IDENTITIES
+(and, for the id, the same type): no other key pair derives them — in particular not an identity and
+its Edwards negation, which share their X25519 key. Uses `kdfContextFromIdentities = true`
+(regenerated from the source): with a context built from the X25519 keys the statement is false, see
+`montgomery_context_collides`. -/
 theorem oneToOne_injective {W : World B C} (L : Laws W) (K : Crypto W) (D : DH)
     (hpub : ∀ x y, K.pub x = K.pub y → x = y)
-    (hkdf : ∀ a b a' b', sharedKey D a b = sharedKey D a' b' → sortPair (D.pub a) b = sortPair (D.pub a') b')
-    (a bPk ty a' bPk' ty' : Nat) :
-    ((oneToOne K D a bPk ty).headerId = (oneToOne K D a' bPk' ty').headerId →
-      sortPair (D.pub a) bPk = sortPair (D.pub a') bPk' ∧ ty = ty') ∧
-    ((oneToOne K D a bPk ty).acl.id = (oneToOne K D a' bPk' ty').acl.id →
-      sortPair (D.pub a) bPk = sortPair (D.pub a') bPk') := by
+    (hkdf : ∀ s c s' c', D.kdf s c = D.kdf s' c' → c = c')
+    (a bId ty a' bId' ty' : Nat) :
+    ((oneToOne K D a bId ty).headerId = (oneToOne K D a' bId' ty').headerId →
+      sortPair (D.pub a) bId = sortPair (D.pub a') bId' ∧ ty = ty') ∧
+    ((oneToOne K D a bId ty).acl.id = (oneToOne K D a' bId' ty').acl.id →
+      sortPair (D.pub a) bId = sortPair (D.pub a') bId') := by
   refine ⟨?_, ?_⟩
   · intro h
     simp only [oneToOne, buildV1, Payload.headerId, mkId] at h
@@ -389,7 +407,7 @@ theorem oneToOne_injective {W : World B C} (L : Laws W) (K : Crypto W) (D : DH)
     simp only [K.dec_encHeader, Option.some.injEq, Header.mk.injEq, oneToOneIn, oneToOneCore] at d2
     have d3 := congrArg W.decKey d2.1
     simp only [K.dec_encKey, Option.some.injEq] at d3
-    exact ⟨hkdf _ _ _ _ (hpub _ _ d3), d2.2.2.2.2.2.2.2⟩
+    exact ⟨sharedKey_determines_identities D hkdf _ _ _ _ (hpub _ _ d3), d2.2.2.2.2.2.2.2⟩
   · intro h
     simp only [oneToOne, buildV1] at h
     have h1 := L.hash_inj _ _ h
@@ -399,15 +417,30 @@ theorem oneToOne_injective {W : World B C} (L : Laws W) (K : Crypto W) (D : DH)
     simp only [K.dec_encAclRoot, Option.some.injEq, AclRoot.mk.injEq, oneToOneIn, oneToOneCore] at d2
     have d3 := congrArg W.decKey d2.1
     simp only [K.dec_encKey, Option.some.injEq] at d3
-    exact hkdf _ _ _ _ (hpub _ _ d3)
+    exact sharedKey_determines_identities D hkdf _ _ _ _ (hpub _ _ d3)
+
+/-- the counter-model: were the HKDF context built from the X25519 public keys, two different
+identities with the same X25519 image (a point and its negation) would derive the same joint key with
+any partner — "no other key pair derives them" would fail while the symmetry still held. -/
+theorem montgomery_context_collides (D : DH) (a bId bId' : Nat) (hm : D.mont bId = D.mont bId') :
+    sharedKeyWith D false a bId = sharedKeyWith D false a bId' := by
+  simp [sharedKeyWith, kdfContext, hm]
 
 /-! ## non-vacuity: the hypotheses are satisfiable, the conclusions are not trivially true -/
 
 /-- the symbolic laws (`Laws`, `Crypto`, the DH law) hold in the free term algebra of
 Space/TermModel.lean: every hypothesis used above is jointly satisfiable -/
 theorem laws_satisfiable :
-    ∃ (W : World Term Term) (_ : Crypto W) (D : DH), Laws W ∧ ∀ a b, D.dh a (D.pub b) = D.dh b (D.pub a) :=
-  ⟨Term.world, Term.crypto, Term.dhToy, Term.laws, Term.dhToy_comm⟩
+    ∃ (W : World Term Term) (K : Crypto W) (D : DH), Laws W ∧
+      (∀ a b, D.dh a (D.mont (D.pub b)) = D.dh b (D.mont (D.pub a))) ∧
+      (∀ s c s' c', D.kdf s c = D.kdf s' c' → c = c') ∧ (∀ x y, K.pub x = K.pub y → x = y) :=
+  ⟨Term.world, Term.crypto, Term.dhToy, Term.laws, Term.dhToy_comm, Term.dhToy_kdf_inj, fun _ _ h => h⟩
+
+-- identities 4 and 5 are "negations" of each other in the toy (same X25519 image): with the identity
+-- context their joint keys with partner 1 differ, with a Montgomery context they would coincide
+example : sharedKeyWith Term.dhToy true 1 4 ≠ sharedKeyWith Term.dhToy true 1 5 ∧
+    sharedKeyWith Term.dhToy false 1 4 = sharedKeyWith Term.dhToy false 1 5 ∧
+    Term.dhToy.mont 4 = Term.dhToy.mont 5 := by decide
 
 private def exIn : CreateIn Term := ⟨1, 2, "anytype.space".toList, 4001199, .atom 5, 7, 8, 9⟩
 private def exIn' : CreateIn Term := ⟨3, 4, "anytype.space".toList, 35, .atom 6, 7, 8, 9⟩
